@@ -45,6 +45,14 @@ def process (sc : ScJ) (budget : Nat) (obs : ObsJ) : Except String Json := do
     | _ => throw "rflow: the start node must be a leaf"
   if nodes.any (fun p => match p.2 with | .flow _ o => o.any (fun c => c.dst == some start) | _ => false) then
     throw "rflow: a connection leads to the start node"
+  -- … nor is the start node re-entered as the start of a NESTED flow: every flow that starts at `start` (the root is one) is
+  -- neither a connection target nor the start node of a flow (`Props.C02Flow.c02Flow_holds`'s `hnested`;
+  -- `guard_insufficient` is the counterexample without it)
+  let startsAtS := nodes.filterMap fun p => match p.2 with | .flow (some s0) _ => if s0 == start then some p.1 else none | _ => none
+  if nodes.any (fun p => match p.2 with
+      | .flow st o => (match st with | some x => startsAtS.contains x | none => false) || o.any (fun c => match c.dst with | some d => startsAtS.contains d | none => false)
+      | _ => false) then
+    throw "rflow: a flow that starts at the start node is itself nested"
   let env : Env := { kind, arena := arenaFn, leafBeh, batchBeh }
   let fuel := max 2000 (3 * sc.leafScripts.length + 200)
   let st0 : RunSt := { ctx := ctx0, visits := fun _ => 0 }
